@@ -524,7 +524,8 @@ func Replay(v engine.Violation) []string {
 			defer func() { _ = recover() }()
 			found.Apply(d.w, v.Path[:i+1], res)
 		}()
-		d.invariant(d.w, v.Path[:i+1], res)
+		p := v.Path[:i+1]
+		engine.GuardInvariant(res, p, func() { d.invariant(d.w, p, res) })
 	}
 	var sigs []string
 	for _, x := range res.Violations {
